@@ -2019,6 +2019,25 @@ impl GlobalInferenceCtx<'_> {
                             // the variants of a distinct sum type are the variants of its inner type
                             let sum_ty = scrutinee_ty.absolute_intern_ty(false);
 
+                            // a value of a variant type (`x : E.A` where `A: ?i32`) passes the check
+                            // above because of its payload, but it isn't a sum type itself
+                            if !matches!(
+                                *sum_ty,
+                                Ty::Enum { .. } | Ty::Optional { .. } | Ty::ErrorUnion { .. }
+                            ) {
+                                self.diagnostics.push(TyDiagnostic {
+                                    kind: TyDiagnosticKind::Mismatch {
+                                        expected: ExpectedTy::SumType,
+                                        found: scrutinee_ty,
+                                    },
+                                    file: self.loc.file(),
+                                    expr: Some(*scrutinee),
+                                    range: self.bodies.range_for_expr(*scrutinee),
+                                    help: None,
+                                });
+                                break 'switch Ty::Unknown.into();
+                            }
+
                             // resolve all arm types beforehand
                             let mut type_resolution_error = false;
                             for arm in arms {
